@@ -105,55 +105,13 @@ C08Verdict(c) ==
             IF d # "" THEN <<"deviation", d, f>> ELSE <<"fail", f, c.kind>>
 
 \* ------------------------------------------------------------------ C15
-Letters == <<"A","B","C","D","E","F","G","H","I","J","K","L","M","N","O","P","Q","R","S","T","U","V","W","X","Y","Z">>
-IcodeRank(ic) == IF ic = "" THEN 0
-                 ELSE IF \E k \in 1..26 : Letters[k] = ic THEN CHOOSE k \in 1..26 : Letters[k] = ic ELSE 27
-ResId(l)  == <<l.ch, l.num, l.ic>>
-ResIds(L) == { ResId(L[i]) : i \in Idx(L) }
-FirstLine(L, id) == Min({ i \in Idx(L) : ResId(L[i]) = id })
-Before(a, b) == a[2] < b[2] \/ (a[2] = b[2] /\ IcodeRank(a[3]) < IcodeRank(b[3]))
-
-\* atom `an` of residue id (C15 tables hold every atom once)
-AtomLines(L, id, an) == { i \in Idx(L) : ResId(L[i]) = id /\ L[i].an = an }
-Connected(L, a, b) ==
-  \E i \in AtomLines(L, a, "O3'") : \E j \in AtomLines(L, b, "P") : Closer(L[i], L[j], BondMilli)
-OnBondSphere(L, a, b) ==
-  \E i \in AtomLines(L, a, "O3'") : \E j \in AtomLines(L, b, "P") : OnSphere(L[i], L[j], BondMilli)
-
-\* consecutive residues of one chain (numbering order = file order, see AgreeDomain)
-Adjacent(L) == { ab \in ResIds(L) \X ResIds(L) :
-                   /\ ab[1][1] = ab[2][1] /\ Before(ab[1], ab[2])
-                   /\ ~\E c \in ResIds(L) : c[1] = ab[1][1] /\ Before(ab[1], c) /\ Before(c, ab[2]) }
-
-AgreeDomain(L) ==
-  /\ InDomain(L, 0)
-  /\ Cardinality(Models(L)) = 1
-  /\ \A i \in Idx(L) : L[i].alt = "" /\ Copies(L, i) = {i} /\ Partners(L, i) = {} /\ IcodeRank(L[i].ic) <= 26
-  /\ \A i, j \in Idx(L) : ResId(L[i]) = ResId(L[j]) => L[i].rn = L[j].rn
-  /\ \A a, b \in ResIds(L) : (a # b /\ a[1] = b[1]) =>
-        /\ (FirstLine(L, a) < FirstLine(L, b)) = Before(a, b)
-        /\ ~OnBondSphere(L, a, b)
-
-RKeys(res)  == { <<res[r].ch, res[r].num, res[r].ic, res[r].rn>> : r \in 1..Len(res) }
-AtomSetOf(r) == { r.atoms[a] : a \in 1..Len(r.atoms) }
-SeqSet(s)   == { s[n] : n \in 1..Len(s) }
-
 ReadFailing(L, X, checkNull) ==
-  LET exp == { ResKey(L[i]) : i \in Idx(L) } IN
   IF X.err # "" THEN (IF HasAbsentOcc(L) THEN "NullMarkers" ELSE "NoException")
   ELSE IF checkNull /\ ~NullMarkersAbsent(X.res) THEN "NullMarkers"
-  ELSE IF RKeys(X.res) # exp \/ Len(X.res) # Cardinality(exp) THEN "SameResidues"
-  ELSE IF \E r \in 1..Len(X.res) :
-            \/ AtomSetOf(X.res[r]) # { AtomRec(L[i]) : i \in { j \in Idx(L) : ResKey(L[j]) =
-                                          <<X.res[r].ch, X.res[r].num, X.res[r].ic, X.res[r].rn>> } }
-            \/ Len(X.res[r].atoms) # Cardinality(AtomSetOf(X.res[r]))
-       THEN "SameAtomsAndCoords"
-  ELSE IF X.gen = 1 /\ ( \/ ~(Adjacent(L) \subseteq SeqSet(X.queried))
-                         \/ \E q \in SeqSet(X.queried) : (q \in SeqSet(X.conn)) # Connected(L, q[1], q[2])
-                         \/ ~(SeqSet(X.conn) \subseteq SeqSet(X.queried)) )
-       THEN "SameConnectivity"
-  ELSE IF X.gen = 2 /\ ( \/ SeqSet(X.conn) # { ab \in Adjacent(L) : Connected(L, ab[1], ab[2]) }
-                         \/ Len(X.conn) # Cardinality(SeqSet(X.conn)) )
+  ELSE IF ~SameResidues(L, X.res) THEN "SameResidues"
+  ELSE IF ~SameAtomsAndCoords(L, X.res) THEN "SameAtomsAndCoords"
+  ELSE IF X.gen = 1 /\ ~ConnectivityAnswersOK(L, SeqSet(X.queried), SeqSet(X.conn)) THEN "SameConnectivity"
+  ELSE IF X.gen = 2 /\ ~(SegmentPairsOK(L, SeqSet(X.conn)) /\ Len(X.conn) = Cardinality(SeqSet(X.conn)))
        THEN "SameConnectivity"
   ELSE "ok"
 
